@@ -203,6 +203,7 @@ class PVLParser(object):
     def parse(self, s: str):
         """Converts the string, *s* to a PVLModule."""
         self.doc = s
+        self.errors = []
         self._simple_value = (None, None)
         self._equals_pos = None
         tokens = self.lexer(s, g=self.grammar, d=self.decoder)
